@@ -61,6 +61,11 @@ def gen_f(r: random.Random, m: dict) -> dict:
     if kind < 0.1:
         return {}
     dom = [k for k in keys if r.random() < (0.75 if kind < 0.8 else 0.3)]
+    if r.random() < 0.35:
+        # what the compiler itself does: ops are dropped and the rest is numbered 0, 1, 2, ... (from a random start):
+        # new offsets smaller than the old ones, the largest new offset below the largest old one
+        start = r.choice([0, 0, 1, 3])
+        return dict(zip(dom, range(start, start + len(dom))))
     targets = r.sample(range(0, max(200, 2 * len(dom) + 10)), len(dom))
     if kind < 0.5:
         targets.sort()
@@ -123,6 +128,16 @@ def impl_case(m: dict, f: dict) -> dict:
         sm3 = build_sm(m)
         sm3.rewrite_offsets({int(k): v for k, v in f.items()})
         out["rewritten"] = json.loads(sm3.serialize())
+        # the same on an object that was stored before (and compared, iterated, asked for entries): storing is a view of
+        # the current state, not of an earlier one
+        sm4 = build_sm(m)
+        sm4.serialize()
+        sm4.serialize(pretty=True)
+        bool(sm4 == build_sm(m))
+        list(sm4)
+        sm4.rewrite_offsets({int(k): v for k, v in f.items()})
+        out["rewritten_after_store"] = json.loads(sm4.serialize())
+        out["rewritten_after_store_pretty"] = json.loads(sm4.serialize(pretty=True))
         out["ok"] = True
     except BaseException as e:  # noqa
         if isinstance(e, (KeyboardInterrupt, SystemExit)):
@@ -297,6 +312,10 @@ def main() -> None:
                 kind = "rewrite-return-address" + (":zero" if zero else "")
             run.fail(kind, "rewrite_offsets: entries are not moved as the property states",
                      {"map": m, "mapping": f, "expected": exp, "observed": {"map": got_map, "mmap": got_mm}})
+        if r.get("rewritten_after_store") != r["rewritten"] or r.get("rewritten_after_store_pretty") != r["rewritten"]:
+            run.fail("stored-state-is-stale", "a map that was stored, compared and iterated before rewrite_offsets is stored differently "
+                     "afterwards than a fresh map rewritten in the same way", {"map": m, "mapping": f, "fresh": r["rewritten"],
+                                                                               "after_store": r.get("rewritten_after_store")})
         # correspondence model <-> implementation
         if first_div is None:
             if unwrap(s["json"]) != r["json"] or not s["roundtrip"]:
